@@ -3,7 +3,7 @@ from __future__ import annotations
 import hashlib, json, os, sys, time
 
 VERIF = os.path.dirname(os.path.dirname(os.path.abspath(__file__)))
-EVID = os.path.join(VERIF, "evidence")
+EVID = os.environ.get("VERIF_EVID_DIR") or os.path.join(VERIF, "evidence")   # (redirected only by the seeded-defect runner)
 REPLAYS = os.path.join(EVID, "replays")
 KNOWN = os.path.join(VERIF, "known_findings.json")
 
